@@ -1169,7 +1169,15 @@ impl BreakpointRegistry {
                 errors.push(e);
             }
 
-            let addr = Address::Global(brkpt.addr.into_global(debugee)?);
+            // do not stop at the first unresolvable address: the rest of the drained
+            // breakpoints (user defined ones and the entry point) would be lost
+            let addr = match brkpt.addr.into_global(debugee) {
+                Ok(addr) => Address::Global(addr),
+                Err(e) => {
+                    errors.push(e);
+                    continue;
+                }
+            };
             match brkpt.r#type {
                 BrkptType::EntryPoint => {
                     self.add_uninit(UninitBreakpoint::new_entry_point(
